@@ -61,6 +61,42 @@ def decl(a):
     return [f"    {n}: {ann} = Attr({', '.join(args)})"]
 
 
+REDEFAULT_VALUE = {"int": "7", "str": "'z'", "list": "[9]", "dict": "{'z': 9}", "spec": "Inner(p=9)"}
+
+
+def attrs_of(fam, cname):
+    """the attributes of Base / Sub / Plain AS DECLARED in the hierarchy (name, kind, flags,
+    default): a spec subclass that only re-assigns the default of an inherited attribute
+    (`a0 = 7`) keeps the owner's flags; an annotated re-declaration (`a0: int = 7`) is a new
+    declaration with default flags; `a0: int = Attr(...)` declares new flags."""
+    out = [dict(a) for a in fam["attrs"]]
+    if cname != "Sub":
+        return out
+    for rd in fam.get("sub_redefault", []):
+        for a in out:
+            if a["name"] == rd["name"]:
+                a["default"] = True
+                if rd["form"] == "annot":
+                    a.update(compare=True, repr=True, init=True)
+                elif rd["form"] == "attr":
+                    a.update(compare=rd["compare"], repr=rd["repr"], init=rd["init"])
+    return out + [dict(a) for a in fam.get("sub_attrs", [])]
+
+
+def redefault_decl(fam, rd):
+    a = next(x for x in fam["attrs"] if x["name"] == rd["name"])
+    k, n = a["kind"], rd["name"]
+    v = REDEFAULT_VALUE.get(k, "0")
+    ann = {"int": "int", "str": "str", "list": "list", "dict": "dict", "spec": "Inner"}.get(k, "Any")
+    if rd["form"] == "plain":
+        return f"    {n} = {v}"
+    if rd["form"] == "annot":
+        return f"    {n}: {ann} = {v}"
+    d = f"default={v}" if k in ("int", "str") or k not in REDEFAULT_VALUE else f"default_factory=lambda: {v}"
+    flags = "".join(f", {f}=False" for f in ("compare", "repr", "init") if not rd[f])
+    return f"    {n}: {ann} = Attr({d}{flags})"
+
+
 def family_source(fam):
     src = ["from typing import Any", "from spec_classes import spec_class, Attr",
            "import types as M0, json as M1",
@@ -75,9 +111,11 @@ def family_source(fam):
         src += decl(a)
     src += ["    def meth0(self): return 0", "    def meth1(self): return 1"]
     src += ["@spec_class", "class Sub(Base):"]
+    for rd in fam.get("sub_redefault", []):
+        src.append(redefault_decl(fam, rd))
     for a in fam.get("sub_attrs", []):
         src += decl(a)
-    if not fam.get("sub_attrs"):
+    if not fam.get("sub_attrs") and not fam.get("sub_redefault"):
         src += ["    pass"]
     src += ["class Plain(Base):", "    pass"]
     src += ["@spec_class(key='k')", "class Keyed:", "    k: Any", "    b0: Any = None"]
@@ -189,6 +227,9 @@ class Family:
     def cls_term(self, cname):
         cls = self.classes[cname]
         anc = [CLS_ID[self.by_cls[b]] for b in cls.__mro__[1:] if b in self.by_cls]
+        # compare / repr / init are what the hierarchy DECLARES (the oracle must not trust
+        # the metadata the library built); defaults and do_not_copy are read back
+        declared = {a["name"]: a for a in attrs_of(self.desc, cname)} if cname in ("Base", "Sub", "Plain") else {}
         attrs = []
         for n, sp in self.attr_specs(cname).items():
             dv = sp.lookup_default_value(cls)
@@ -203,7 +244,12 @@ class Family:
                     cl = f"(Some (CVal {self.val(cv)}))"
                 except AssertionError:
                     cl = "None"
-            attrs.append(f"mkattr {attr_id(n)}%nat {cbool(sp.compare)} {cbool(sp.repr)} {cbool(sp.init)} "
+            dec = declared.get(n)
+            if dec is None or dec["kind"] == "clsfun":
+                fl = (sp.compare, sp.repr, sp.init) if dec is None else (True, True, True)
+            else:
+                fl = (dec.get("compare", True), dec.get("repr", True), dec.get("init", True))
+            attrs.append(f"mkattr {attr_id(n)}%nat {cbool(fl[0])} {cbool(fl[1])} {cbool(fl[2])} "
                          f"{cbool(bool(sp.do_not_copy))} {dflt} {cl}")
         meta = cls.__spec_class__
         key = "None" if not meta.key else f"(Some {attr_id(meta.key)}%nat)"
@@ -215,19 +261,18 @@ class Family:
         return clist([self.cls_term(c) for c in order])
 
     def check_table(self):
-        """the metadata the implementation resolved must be what the description says"""
-        exp = {}
-        for a in self.desc["attrs"]:
-            exp[a["name"]] = a
-        got = self.attr_specs("Base")
-        if list(got) != [a["name"] for a in self.desc["attrs"]]:
-            return f"attribute order {list(got)}"
-        for n, a in exp.items():
-            if a["kind"] == "clsfun":
-                continue
-            for flag in ("compare", "repr", "init"):
-                if bool(getattr(got[n], flag)) != bool(a.get(flag, True)):
-                    return f"{n}.{flag}"
+        """the metadata the implementation resolved must be what the hierarchy declares"""
+        for cname in ("Base", "Sub", "Plain"):
+            dec = attrs_of(self.desc, cname)
+            got = self.attr_specs(cname)
+            if list(got) != [a["name"] for a in dec]:
+                return f"{cname}: attribute order {list(got)}"
+            for a in dec:
+                if a["kind"] == "clsfun":
+                    continue
+                for flag in ("compare", "repr", "init"):
+                    if bool(getattr(got[a["name"]], flag)) != bool(a.get(flag, True)):
+                        return f"{cname}.{a['name']}.{flag} is {getattr(got[a['name']], flag)}, declared {a.get(flag, True)}"
         return None
 
 
@@ -557,8 +602,12 @@ def run_case(F, case):
             if k == "dc":
                 y = copy.deepcopy(x)
             else:
-                specs = F.attr_specs(case["a"]["cls"])
-                kw = {n: getattr(x, n) for n, sp in specs.items() if sp.init and hasattr(x, n)}
+                cn = case["a"]["cls"]
+                if cn in ("Base", "Sub", "Plain"):
+                    inits = [a["name"] for a in attrs_of(F.desc, cn) if a.get("init", True)]
+                else:
+                    inits = [n for n, sp in F.attr_specs(cn).items() if sp.init]
+                kw = {n: getattr(x, n) for n in inits if hasattr(x, n)}
                 y = type(x)(**kw)
             o = tri(lambda: y == x)
             yt = F.val(y)
@@ -703,20 +752,29 @@ def gen_family(rng, kinds=None, flags=None):
             a["dnc"] = k in ("list", "dict", "spec", "meth") and rng.random() < 0.2
         attrs.append(a)
     sub = []
-    if all(a.get("init", True) for a in attrs) and rng.random() < 0.8:
+    if rng.random() < 0.8:
         k = rng.choice(["int", "str", "list", "meth"])
         sub = [{"name": "b0", "kind": k, "compare": rng.random() < 0.7, "repr": rng.random() < 0.7,
                 "default": True, "init": True}]
-    return {"attrs": attrs, "sub_attrs": sub}
+    rds = []
+    cand = [a for a in attrs if a["kind"] != "clsfun"]
+    if kinds is None and cand and rng.random() < 0.7:
+        for a in rng.sample(cand, min(len(cand), rng.choice((1, 1, 2)))):
+            form = rng.choice(("plain", "plain", "plain", "annot", "attr"))
+            rd = {"name": a["name"], "form": form}
+            if form == "attr":
+                rd.update(compare=rng.random() < 0.5, repr=rng.random() < 0.5, init=True)
+            rds.append(rd)
+    return {"attrs": attrs, "sub_attrs": sub, "sub_redefault": rds}
 
 
 def spec_sub_ok(fam):
-    return all(a.get("init", True) for a in fam["attrs"])
+    return True       # (DESIGN 5 #15 is repaired: Sub() works with defaulted init=False attributes)
 
 
 def gen_state(rng, fam, cname):
     st = {}
-    alist = fam["attrs"] + (fam["sub_attrs"] if cname == "Sub" else [])
+    alist = attrs_of(fam, cname)
     for a in alist:
         vals = values_for(a["kind"], rng)
         r = rng.random()
@@ -731,13 +789,14 @@ def gen_state(rng, fam, cname):
     return {"cls": cname, "attrs": st}
 
 
-def one_diff_pairs(fam):
+def one_diff_pairs(fam, cname="Base"):
     """for each attribute position: the base state and a state that differs only there"""
+    alist = attrs_of(fam, cname)
     base = {}
-    for a in fam["attrs"]:
+    for a in alist:
         base[a["name"]] = values_for(a["kind"], None)[0]
     out = []
-    for a in fam["attrs"]:
+    for a in alist:
         vals = values_for(a["kind"], None)
         alts = [vals[1]]
         if not a.get("default") and a["kind"] != "clsfun":
@@ -745,12 +804,12 @@ def one_diff_pairs(fam):
         for alt in alts:
             st = dict(base)
             st[a["name"]] = alt
-            out.append(({"cls": "Base", "attrs": dict(base)}, {"cls": "Base", "attrs": st}, a["name"]))
+            out.append(({"cls": cname, "attrs": dict(base)}, {"cls": cname, "attrs": st}, a["name"]))
     return out
 
 
 def rebuildable(fam, st):
-    alist = fam["attrs"] + (fam["sub_attrs"] if st["cls"] == "Sub" else [])
+    alist = attrs_of(fam, st["cls"])
     for a in alist:
         r = st["attrs"].get(a["name"], ["default"])
         if not a.get("init", True) and r[0] != "default":
@@ -849,11 +908,14 @@ def generate(rng, tier):
         triples = [(a, b, c) for a in pool for b in pool for c in pool]
         for a, b, c in rng.sample(triples, 30 if quick else 180):
             cases.append({"kind": "tri", "fam": fid, "a": a, "b": b, "c": c, "gen": "pool-triple"})
+        if fam.get("sub_redefault"):
+            for a, b, which in one_diff_pairs(fam, "Sub"):
+                cases.append({"kind": "eq", "fam": fid, "a": a, "b": b, "gen": "redefault-one-diff", "diff": which})
         # triples with equal members (a state, a fresh copy, a variant in a compare=False attribute)
         for st in rng.sample(pool, 4 if quick else 8):
             clone = json.loads(json.dumps(st))
             var = json.loads(json.dumps(st))
-            for a in fam["attrs"]:
+            for a in attrs_of(fam, st["cls"]):
                 if a["kind"] != "clsfun" and not a.get("compare", True) and a.get("init", True):
                     var["attrs"][a["name"]] = rng.choice(values_for(a["kind"], rng))
             cases.append({"kind": "tri", "fam": fid, "a": st, "b": clone, "c": var, "gen": "equal-triple"})
@@ -877,6 +939,45 @@ def generate(rng, tier):
             cases.append({"kind": "repr", "fam": fid, "gen": "repr-state",
                           "graph": {"nodes": [["inst", st["cls"], {k: v for k, v in st["attrs"].items()
                                                                   if v[0] not in ("default", "deleted", "meth", "inner")}]], "root": 0}})
+    # spec subclasses that re-default an inherited attribute of every flag combination: pairs of
+    # Sub (and Base) instances that differ in exactly one attribute, deepcopy, rebuild, repr
+    rkinds = ["int", "str", "list", "func", "dict", "spec"]
+    combos3 = list(itertools.product((True, False), repeat=3))
+    k = 0
+    for form in ("plain", "annot", "attr"):
+        for cmpf, reprf, initf in combos3:
+            for dnc in ((False, True) if not quick or (cmpf, reprf) == (False, True) else (False,)):
+                kind = rkinds[k % len(rkinds)] if not dnc else ("list", "dict", "spec")[k % 3]
+                k += 1
+                if not initf and kind not in ("int", "str"):
+                    kind = ("int", "str")[k % 2]
+                target = {"name": "a1", "kind": kind, "compare": cmpf, "repr": reprf, "init": initf,
+                          "default": True, "dnc": dnc}
+                fam = {"attrs": [{"name": "a0", "kind": "int", "compare": True, "repr": True, "init": True, "default": True},
+                                 target,
+                                 {"name": "a2", "kind": rng.choice(["str", "meth", "list"]), "compare": False, "repr": True,
+                                  "init": True, "default": True},
+                                 {"name": "a3", "kind": "str", "compare": True, "repr": True, "init": True, "default": False}],
+                       "sub_attrs": [{"name": "b0", "kind": "int", "compare": rng.random() < 0.5, "repr": True,
+                                      "default": True, "init": True}],
+                       "sub_redefault": [dict({"name": "a1", "form": form},
+                                              **({"compare": not cmpf, "repr": reprf, "init": True} if form == "attr" else {}))]}
+                if rng.random() < 0.5:
+                    fam["sub_redefault"].append({"name": "a2", "form": "plain"})
+                fid = add_family(fam)
+                for cname in ("Sub", "Base", "Plain"):
+                    for a, b, which in one_diff_pairs(fam, cname):
+                        cases.append({"kind": "eq", "fam": fid, "a": a, "b": b, "gen": "redefault-one-diff", "diff": which})
+                sts = [gen_state(rng, fam, "Sub") for _ in range(3)]
+                for st in sts:
+                    cases.append({"kind": "dc", "fam": fid, "a": st, "gen": "deepcopy"})
+                    if rebuildable(fam, st):
+                        cases.append({"kind": "rb", "fam": fid, "a": st, "gen": "rebuild"})
+                    cases.append({"kind": "repr", "fam": fid, "gen": "repr-state",
+                                  "graph": {"nodes": [["inst", "Sub", {n: v for n, v in st["attrs"].items()
+                                                                     if v[0] not in ("default", "deleted", "meth", "inner")}]], "root": 0}})
+                a, b = sts[0], sts[1]
+                cases.append({"kind": "tri", "fam": fid, "a": a, "b": json.loads(json.dumps(a)), "c": b, "gen": "equal-triple"})
     # pairs that differ in exactly one attribute: every position, every combination of
     # kinds before it (all kind tuples of length <= 3 in thorough; sampled in quick)
     combos = [list(t) for n in (1, 2, 3) for t in itertools.product(KINDS, repeat=n)]
@@ -902,6 +1003,7 @@ def drop_attr(fam, case, name):
     fam2 = json.loads(json.dumps(fam))
     fam2["attrs"] = [a for a in fam2["attrs"] if a["name"] != name]
     fam2["sub_attrs"] = [a for a in fam2.get("sub_attrs", []) if a["name"] != name]
+    fam2["sub_redefault"] = [r for r in fam2.get("sub_redefault", []) if r["name"] != name]
     c2 = json.loads(json.dumps(case))
     for key in "abc":
         if key in c2:
@@ -931,7 +1033,7 @@ def shrink(fam, case, code):
                 if isinstance(e, (KeyboardInterrupt, SystemExit)):
                     raise
                 continue
-            if bad and bad[0][1] == code and not logs:
+            if bad and bad[0][1] == code and not [l for l in logs if not l.startswith("class table")]:
                 hit = (f, c)
                 break
         if hit is None:
@@ -1046,8 +1148,10 @@ def main(tier, replay=None):
                 f"case={json.dumps({k: v for k, v in small.items() if k not in ('fam',)})[:400]} observed={json.dumps(obs2)[:300]}")
         chk.violation(what, describe(fam, small, code, obs2), sig={"kind": c["kind"], "code": code},
                       no_input=(code != 2))
-    for lg in logs:
-        chk.violation("correspondence evaluation failed: " + lg[-500:], {"kind": "coq-eval", "log": lg}, no_input=True)
+    for lg in logs[:6]:
+        head = ("the metadata the library built differs from the declared hierarchy: " if lg.startswith("class table")
+                else "correspondence evaluation failed: ")
+        chk.violation(head + lg[-500:], {"kind": "coq-eval", "log": lg}, no_input=True)
     by_kind, by_gen, kinds_hist, sizes = {}, {}, {}, {}
     for c in cases:
         by_kind[c["kind"]] = by_kind.get(c["kind"], 0) + 1
